@@ -7,7 +7,77 @@ def make_enum(n, name="H"):
     return indexed_enums.Enum(name, {f"m{i}": f"value {i}" for i in range(n)})
 
 
+def run_declarations(call):
+    """enumerations as declared (with and without aliases), and pairs of distinct enumerations: the class tables agree with the member
+    indices, every member / name / index round-trips, members of ANOTHER enumeration are refused. Each problem has an id naming
+    the specific declaration it was found on."""
+    import numpy
+    from openfisca_core import indexed_enums as E
+    problems = []
+
+    def declare(clsname, members):
+        # members: list of (name, value); a repeated value declares an alias
+        return E.Enum.__class__.__prepare__ and type(E.Enum)(clsname, (E.Enum,), _body(clsname, members))
+
+    def _body(clsname, members):
+        d = type(E.Enum).__prepare__(clsname, (E.Enum,))
+        for k, v in members:
+            d[k] = v
+        return d
+    decls = {"plain": [("a", "A"), ("b", "B"), ("c", "C")], "alias-in-the-middle": [("a", "A"), ("a_bis", "A"), ("b", "B"), ("c", "C")],
+             "alias-at-the-end": [("a", "A"), ("b", "B"), ("b_bis", "B")], "one-member": [("only", "O")]}
+    try:
+        for did, members in decls.items():
+            H = declare("H_" + did.replace("-", "_"), members)
+            canon = [m for m in H]
+            for i, m in enumerate(canon):
+                if m.index != i:
+                    problems.append({"id": f"tables:{did}", "text": f"{did}: member {m.name} has index {m.index}, it is member number {i}"})
+            if len(H.indices) != len(canon) or [str(x) for x in H.names] != [m.name for m in canon] or list(H.enums) != canon:
+                problems.append({"id": f"tables:{did}", "text": f"{did}: tables indices={list(H.indices)} names={list(H.names)} enums={list(H.enums)} for members {canon}"})
+            for route, vals in (("members", canon), ("names", [m.name for m in canon]), ("indices", [m.index for m in canon])):
+                try:
+                    back = list(H.encode(list(vals)).decode())
+                except Exception as e:
+                    problems.append({"id": f"round-trip:{did}:{route}", "text": f"{did}: encoding its {route} raised {type(e).__name__}: {e}"})
+                    continue
+                if back != canon:
+                    problems.append({"id": f"round-trip:{did}:{route}", "text": f"{did}: {route} {vals} decode to {back}"})
+            for bad in ([len(canon)], [-1], ["zzz"]):
+                try:
+                    r = H.encode(bad)
+                    problems.append({"id": f"refusal:{did}:{bad[0]}", "text": f"{did}: {bad} was encoded to {list(r)}"})
+                except Exception:
+                    pass
+            for empty in ([], numpy.array([], dtype=int)):
+                try:
+                    if list(H.encode(empty).decode()) != [] or list(H.encode(empty).decode_to_str()) != []:
+                        problems.append({"id": f"empty:{did}", "text": f"{did}: an empty input does not decode to nothing"})
+                except Exception as e:
+                    problems.append({"id": f"empty:{did}", "text": f"{did}: encoding / decoding an empty input raised {type(e).__name__}"})
+        pairs = {"other-name-other-members": (("H1", [("a", "A"), ("b", "B")]), ("G1", [("x", "X"), ("y", "Y")])),
+                 "other-name-same-member-names": (("Consent", [("yes", "Y"), ("no", "N")]), ("Residency", [("yes", "1"), ("no", "2")])),
+                 "same-name-other-members": (("Status", [("a", "A"), ("b", "B")]), ("Status", [("x", "X"), ("y", "Y")])),
+                 "same-name-same-member-names-other-order": (("Zone", [("one", "1"), ("two", "2")]), ("Zone", [("two", "2"), ("one", "1")]))}
+        for pid, ((n1, m1), (n2, m2)) in pairs.items():
+            H, G = declare(n1, m1), declare(n2, m2)
+            foreign = list(G)
+            for how, val in (("list", [foreign[0], foreign[1]]), ("array", numpy.array([foreign[1], foreign[0]], dtype=object)), ("mixed", [list(H)[0], foreign[1]])):
+                try:
+                    r = H.encode(val)
+                    problems.append({"id": f"foreign:{pid}", "text": f"{pid}: {n1}.encode of members of another enumeration {n2} ({how}) gave {[int(x) for x in r]} instead of raising"})
+                    break
+                except Exception:
+                    pass
+        return {"kind": "return", "value": {"ok": not problems, "problems": problems}}
+    except BaseException as ex:
+        return {"kind": "raise", "exc": type(ex).__name__, "mro": [c.__name__ for c in type(ex).__mro__],
+                "msg": str(ex)[:300], "tb": traceback.format_exc()[-1200:]}
+
+
 def run(call):
+    if call.get("mode") == "declarations":
+        return run_declarations(call)
     import numpy
     from openfisca_core.indexed_enums import _utils
     try:
